@@ -8,10 +8,33 @@ class G:
         from ..wikidb import siteinfo
         s.r=rng; s.n=0; s.lang=lang; s.si=siteinfo(lang); s.restricted=restricted; s.features=set(); s.big_table_words=[]; s.tall_rows=[]
     def w(s): s.n+=1; return "wq%05dx"%s.n
+    _FP={}
+    def iwprefixes(s):
+        """(a project namespace named like an interwiki prefix - 'Wikipedia' - is written with the leading colon only)"""
+        if not hasattr(s,"_iw"): s._iw={e["prefix"].lower() for e in s.si.get("interwikimap",[])}
+        return s._iw
+    def foreign_prefixes(s):
+        """local names of the project/help/template namespaces of the other bundled sites that mean nothing on this site"""
+        if s.lang not in G._FP:
+            from ..wikidb import siteinfo
+            from mwlib.core import nshandling
+            h=nshandling.NsHandler(s.si); out=[]
+            for l in "de en es fr it ja nl no pl pt simple sv".split():
+                if l==s.lang: continue
+                o=siteinfo(l)
+                for ns in ("12","4","10","2"):
+                    nm=o["namespaces"][ns]["*"]
+                    t=nm+":Xq"
+                    try: r=h.splitname(t,0)
+                    except Exception: continue
+                    if r[0]==0 and r[2]==t and " " not in nm and nm.isalpha() and nm not in out and len(nm)>2: out.append(nm)
+            iw={e["prefix"].lower() for e in s.si.get("interwikimap",[])}
+            G._FP[s.lang]=[x for x in out if x.lower() not in iw]
+        return G._FP[s.lang]
     def inline(s, depth, ctx):
         r=s.r; parts=[]; words=[]
         for _ in range(r.randint(1,3)):
-            k = r.choice(["t","t","t"]+list(STY)+["bi","link","nslink","ext","ref","barelink"]) if depth<2 else "t"
+            k = r.choice(["t","t","t"]+list(STY)+["bi","link","nslink","ext","ref","barelink","fplink"]) if depth<2 else "t"
             if k=="t":
                 w=s.w(); parts.append(w); words.append((w,ctx))
             elif k in STY or k=="bi":
@@ -25,13 +48,19 @@ class G:
                 t,ws=s.inline(depth+1, ctx+cl); parts.append(o+t+c); words+=ws
             elif k=="link":
                 if any(c.startswith("Link") for c in ctx): continue
-                w=s.w(); tgt="Tgt "+w; parts.append(f"[[{tgt}|{w}]]"); words.append((w,ctx+("Link:"+tgt,)))
+                w=s.w(); tgt="Tgt "+w; parts.append(f"[[{tgt}|{w}]]"); words.append((w,ctx+("Link:"+tgt+"@0",)))
             elif k=="barelink":
                 if any(c.startswith("Link") for c in ctx): continue
-                w=s.w(); w2=w.capitalize(); parts.append(f"[[{w2}]]"); words.append((w2,ctx+("Link:"+w2,)))
+                w=s.w(); w2=w.capitalize(); parts.append(f"[[{w2}]]"); words.append((w2,ctx+("Link:"+w2+"@0",)))
             elif k=="nslink":
                 if any(c.startswith("Link") for c in ctx): continue
-                w=s.w(); ns=s.r.choice(["12","4","14","10"]); nsn=s.si["namespaces"][ns]["*"]; tgt=f"{nsn}:X{w}"; parts.append(f"[[:{tgt}|{w}]]"); words.append((w,ctx+("Link:"+tgt,)))
+                w=s.w(); ns=s.r.choice(["12","4","14","10"]); nsn=s.si["namespaces"][ns]["*"]; tgt=f"{nsn}:X{w}"; colon=":" if ns=="14" or s.r.random()<.5 or nsn.lower() in s.iwprefixes() else ""; parts.append(f"[[{colon}{tgt}|{w}]]"); words.append((w,ctx+("Link:"+tgt+"@ns",)))
+            elif k=="fplink":
+                # a prefix that names a namespace on another bundled site but not on this one: part of an article title here
+                if any(c.startswith("Link") for c in ctx): continue
+                pref=s.r.choice(s.foreign_prefixes()) if s.foreign_prefixes() else None
+                if not pref: continue
+                w=s.w(); tgt=f"{pref}:X{w}"; parts.append(f"[[{tgt}|{w}]]"); words.append((w,ctx+("Link:"+tgt+"@0",))); s.features.add("foreign-prefix-link")
             elif k=="ext":
                 if any(c.startswith("Link") for c in ctx): continue
                 w=s.w(); parts.append(f"[http://x.org/{w} {w}]"); words.append((w,ctx+("Link:http://x.org/"+w,)))
@@ -143,7 +172,7 @@ class G:
             elif k=="ll":
                 # a list whose items are bare links only (their visible text is the link target)
                 for _ in range(s.r.randint(1,3)):
-                    w=s.w().capitalize(); out.append("* [["+w+"]]"); words.append((w,ctx+("List:*","Item","Link:"+w)))
+                    w=s.w().capitalize(); out.append("* [["+w+"]]"); words.append((w,ctx+("List:*","Item","Link:"+w+"@0")))
             # list-like blocks may follow each other without a blank line
             tight = k in LISTY and bi+1<len(kinds) and kinds[bi+1] in LISTY
             out += [""]*s.r.randint(0 if tight else 1,2)
